@@ -123,9 +123,6 @@ PINNED = {
     "Infty": (T.norm("""if (x.is_negative_infinity()) { result_ = llvm::ConstantFP::getInfinity( get_float_type(&mod->getContext()), true);
  } else if (x.is_positive_infinity()) { result_ = llvm::ConstantFP::getInfinity( get_float_type(&mod->getContext()), false);
  } else { throw SymEngineException( "LLVMDouble can only represent real valued infinity"); }"""), "LRInfty"),
-    "Symbol": (T.norm("""unsigned i = 0; for (auto &symb : symbols) { if (eq(x, *symb)) { result_ = symbol_ptrs[i]; return; } ++i; }
- auto it = replacement_symbol_ptrs.find(x.rcp_from_this()); if (it != replacement_symbol_ptrs.end()) { result_ = it->second; return; }
- throw SymEngineException("Symbol " + x.__str__() + " not in the symbols vector.");"""), "LRSymbol"),
     "Sign": (T.norm("""const auto x2 = x.get_arg(); PiecewiseVec new_pw; new_pw.push_back({real_double(0.0), Eq(x2, real_double(0.0))});
  new_pw.push_back({real_double(-1.0), Lt(x2, real_double(0.0))}); new_pw.push_back({real_double(1.0), boolTrue});
  auto pw = rcp_static_cast<const Piecewise>(piecewise(std::move(new_pw))); bvisit(*pw);"""), "LRSign"),
@@ -138,6 +135,12 @@ PINNED = {
  result_ = builder->CreateAnd(left_ok, right_ok); result_ = builder->CreateUIToFP(result_, get_float_type(&mod->getContext()));
  } else { throw SymEngineException("LLVMVisitor: only ``Interval`` " "implemented for ``Contains``."); }"""), "LRContains"),
 }
+
+SYM_INPUTS = "unsigned i = 0; for (auto &symb : symbols) { if (eq(x, *symb)) { result_ = symbol_ptrs[i]; return; } ++i; } "
+SYM_MAP = "auto it = replacement_symbol_ptrs.find(x.rcp_from_this()); if (it != replacement_symbol_ptrs.end()) { result_ = it->second; return; } "
+SYM_THROW = 'throw SymEngineException("Symbol " + x.__str__() + " not in the symbols vector.");'
+SYMBOL_INPUTS_FIRST = SYM_INPUTS + SYM_MAP + SYM_THROW
+SYMBOL_MAP_FIRST = SYM_MAP + SYM_INPUTS + SYM_THROW
 
 PIECEWISE_TXT = T.norm("""std::vector<llvm::BasicBlock> blocks; RCP<const Piecewise> pw = x.rcp_from_this_cast<const Piecewise>();
  if (neq(*pw->get_vec().back().second, *boolTrue)) { throw SymEngineException( "LLVMDouble requires a (Expr, True) at the end of Piecewise"); }
@@ -175,6 +178,12 @@ def bvisit_rule(cls, param, body):
         if b.replace("/*negative=*/", "").replace("/*payload=*/", "") != txt:
             raise TrError("bvisit(const %s &): body not recognised: %r" % (cls, b))
         return rule
+    if cls == "Symbol":
+        if b == SYMBOL_INPUTS_FIRST:
+            return "LRSymbol false"
+        if b == SYMBOL_MAP_FIRST:
+            return "LRSymbol true"
+        raise TrError("bvisit(const Symbol &): body not recognised: %r" % b)
     if cls == "Piecewise":
         if b != PIECEWISE_TXT:
             raise TrError("bvisit(const Piecewise &): body not recognised")
@@ -317,7 +326,7 @@ def main():
         if piece not in init:
             raise TrError("LLVMVisitor::init: expected fragment not found: %r" % piece[:80])
     # does init start from empty symbol tables (a previous init that threw leaves them filled)?
-    m = re.search(r"void LLVMVisitor::init\(const vec_basic &inputs, const vec_basic &outputs, const bool symbolic_cse, unsigned opt_level\) \{(.*?)symbols = inputs;", init)
+    m = re.search(r"void LLVMVisitor::init\(const vec_basic &inputs, const vec_basic &outputs, const bool symbolic_cse, unsigned opt_level\) \{(.*?)auto input_arg = ", init)
     if not m:
         raise TrError("LLVMVisitor::init: head not recognised")
     clears_first = "symbol_ptrs.clear();" in m.group(1) and "replacement_symbol_ptrs.clear();" in m.group(1)
